@@ -237,9 +237,54 @@ def lemma_names():
     return out
 
 
+def scale_fn(g):
+    """Hundreds of recorded versions (rows of two tasks interleaved) and more than eight unrecorded outputs in one package."""
+    import conductor.cli.gc as cli_gc
+    nrec = (101, 136)[g.choose("recorded", 2)]
+    nun = (9, 12)[g.choose("unrecorded", 2)]
+    dry = g.flag("dry_run")
+    proj = hrun.Project()
+    try:
+        proj.write("p/COND", "run_experiment(name='a', run='true')\nrun_experiment(name='b', run='true')\n")
+        recorded = set()
+        # //p:a gets most versions, //p:b a few with timestamps in between (so that pages / groups interleave)
+        for i in range(nrec):
+            ident = "//p:b" if i % 25 == 7 else "//p:a"
+            proj.add_version(ident, 1000 + i, files={"out.txt": b"x"})
+            recorded.add((ident, 1000 + i))
+        for j in range(nun):
+            d = proj.out / "p" / ("a.task.%d" % (5000 + j))
+            d.mkdir(parents=True)
+            (d / "partial.txt").write_text("failed run")
+        before = hrun.tree_digest(proj.root)
+        want = oracle_delete_set(str(proj.out), recorded)
+        res = hrun.invoke(cli_gc.main, argparse.Namespace(dry_run=dry, verbose=False, debug=False), str(proj.root), fakeos.Kernel(fakeos.Sched()), timeout=120)
+        D = "%d recorded versions of //p:a and //p:b, %d unrecorded outputs of //p:a, dry_run=%s" % (nrec, nun, dry)
+        if isinstance(res.status, str):
+            g.require(False, "gc:crash:" + res.status[4:], "%s; %s" % (res.exc, D))
+        after = hrun.tree_digest(proj.root)
+        gone_dirs = sorted(k for k in before if k not in after and before[k][0] == "dir" and ".task." in os.path.basename(k))
+        if dry:
+            printed = sorted(os.path.relpath(os.path.normpath(os.path.join(str(proj.root), l[len("Would delete "):])), str(proj.out))
+                             for l in res.out.split("\n") if l.startswith("Would delete "))
+            g.require(not gone_dirs, "gc:dry-run-deleted", "%s; %s" % (gone_dirs[:4], D))
+            g.require(printed == want, "gc:dry-run-listing", "listed %d directories, a real gc would delete %d (e.g. %s); %s" % (
+                len(printed), len(want), sorted(set(printed) ^ set(want))[:4], D))
+        else:
+            got = sorted(os.path.relpath(k, "cond-out") for k in gone_dirs)
+            g.require(set(got) <= set(want), "gc:deleted-too-much", "removed recorded/other directories %s; %s" % (sorted(set(got) - set(want))[:4], D))
+            g.require(set(want) <= set(got), "gc:left-unrecorded-output", "did not remove %s; %s" % (sorted(set(want) - set(got))[:4], D))
+        g.goal("more than 100 recorded versions")
+        return {"nontrivial": True, "sample": {"case": D, "to_delete": len(want)}}
+    finally:
+        proj.cleanup()
+
+
 def spaces(tier):
     goals = ["something to delete next to something to keep", "look-alike nested inside a task output", "listing from a sub-directory"]
-    return [Space("catalogue-12", make(), "every subset of a 12-entry catalogue (2^12 trees) x --dry-run x --verbose x working directory "
+    return [Space("scale-rows-and-leftovers", scale_fn, "101 / 136 recorded versions of two tasks (rows interleaved) + 9 / 12 unrecorded outputs in the "
+                  "same package, gc and gc --dry-run", depth=3, goals=["more than 100 recorded versions"]),
+            Space("catalogue-12", make(), "every subset of a 12-entry catalogue (2^12 trees) x --dry-run x --verbose x working directory "
                   "{project root, a sub-directory}", depth=9, goals=goals, outside=["symlinks placed by hand", "deeper nesting than 2 packages"])]
 
 
@@ -250,7 +295,7 @@ def lemmas(tier):
 def canaries(tier):
     return [
         Canary("gc-descends-into-task-directories",
-               lambda: rewrite("conductor.cli.gc", "main", "if _REGULAR_TASK_REGEX.match(inner.name) is None:", "if True:")),
+               lambda: rewrite("conductor.cli.gc", "main", "if _REGULAR_TASK_REGEX.match(inner.name) is None:", "if True:"), space="catalogue-12"),
         Canary("gc-membership-test-inverted",
-               lambda: rewrite("conductor.cli.gc", "main", "not in all_versions", "in all_versions")),
+               lambda: rewrite("conductor.cli.gc", "main", "not in all_versions", "in all_versions"), space="catalogue-12"),
     ]
